@@ -31,7 +31,8 @@ class Config:
     """One task: class, resources with initial contents, initial objects, options."""
 
     def __init__(self, clsname, initial=(ABSENT,), objects=(0,), prefix=(), write_concern=False,
-                 label=None):
+                 label=None, options=None):
+        self.options = dict(options or {})
         self.clsname = clsname
         self.initial = tuple(initial)
         self.objects = tuple(objects)  # resource index of each initial object
@@ -87,6 +88,9 @@ class Ref:
         self.n_exits = 0
         self.n_ops = 0
         self.n_setcap = 0
+        self.track_sessions = bool(getattr(cfg, "options", {}).get("track_sessions"))
+        self.session = 0  # number of buffered sessions started (a session = contexts active .. all left)
+        self.ops_in_session = 0
         self.cap_default = True
         self.handles = []  # dict(obj, path, kinds, attached)
         for r in cfg.objects:
@@ -182,6 +186,13 @@ class Ref:
         """Apply an event; returns (Expect or None, info dict)."""
         t = ev[0]
         info = {}
+        if self.track_sessions:
+            active = self.cls_depth > 0 or any(self.obj_depth)
+            if t in ("enter", "enter_cls") and not active:
+                self.session += 1
+                self.ops_in_session = 0
+            elif t == "op" and active:
+                self.ops_in_session += 1
         if t == "op":
             _, h, op, args = ev
             hd = self.handles[h]
@@ -363,6 +374,7 @@ class Ref:
             [None if b is None else model.canon_json(b) for b in self.buf],
             self.in_buf, self.changed_w, self.ext_after, self.disk_known, self.touched,
             self.obj_res, self.obj_depth, self.cls_depth, self.cap_stack, self.cap_default, self.ctx_stack, self.n_exits > 0, self.n_setcap,
+            (self.session, self.ops_in_session) if self.track_sessions else None,
             [(h["obj"], h["path"], h["kinds"], h["attached"]) for h in self.handles],
         ))
 
